@@ -248,6 +248,15 @@ class World:
                 lhs, rhs = self.pool[ln], self.pool[rn]
                 res = lhs.join(rhs, self.pred(px), backtrack=bt == "T", transfer=tr == "T")
                 return self.report(n, "same" if res is lhs else "new", res)
+            case ["joinon", n, ln, rn, cols, px, bt, tr]:
+                # explicit common columns: Join(pred, min_columns=S, max_columns=S).partial(rhs).apply(lhs, ...)
+                from lsst.daf.relation import Join
+                lhs, rhs = self.pool[ln], self.pool[rn]
+                common = self.cols(cols)
+                res = Join(self.pred(px), min_columns=common, max_columns=common).partial(rhs).apply(
+                    lhs, backtrack=bt == "T", transfer=tr == "T"
+                )
+                return self.report(n, "same" if res is lhs else "new", res)
             case ["chain", n, ln, rn]:
                 res = self.pool[ln].chain(self.pool[rn])
                 return self.report(n, "new", res)
